@@ -4,7 +4,7 @@ Scenario = dict(seed, mod, entities=[...creation order...], pools=[[n, a]...], u
   entity kinds (ids are assigned in creation order starting at 1; groups take two ids, GroupInput then GroupOutput):
     dict(kind='pfc'|'gate'|'handler'|'processor'|'buffer'|'source'|'sink'|'batcher', up=[ids], ...params)
     dict(kind='group', gid, devices=[ids])        dict(kind='path', gid, up=[ids])       dict(kind='maint', capacity, value)
-  uop = ['shutdown', d] | ['restore', d] | ['fail_at', d, t] | ['block', d, 0/1] | ['adjust', d, z] | ['offset', d, z] | ['add_res', n, a] | ['create_wo', m, t, g]
+  uop = ['shutdown', d] | ['restore', d] | ['fail_at', d, t] | ['block', d, 0/1] | ['adjust', d, z] | ['offset', d, z] | ['rewire', d, u1, u2 (0 = none)] | ['add_res', n, a] | ['create_wo', m, t, g]
   xop = ['init'] | ['step'] | ['run', d] | ['at', t, k, prio] | ['now', uop]
 All times/values in 1/8 units.
 """
@@ -20,7 +20,7 @@ STEP_LIMIT = 6000
 KINDS = {'pfc': 0, 'gate': 1, 'handler': 2, 'processor': 3, 'buffer': 4, 'source': 5, 'sink': 6, 'batcher': 7,
          'path': 8, 'gin': 9, 'gout': 10}
 CBOPS = {'set_cycle': 0, 'offset_next': 1, 'part_add_value': 2, 'part_set_quality': 3, 'create_wo': 4, 'create_wo_if_failure': 5, 'log': 6}
-UOPS = {'shutdown': 0, 'restore': 1, 'fail_at': 2, 'block': 3, 'adjust': 4, 'add_res': 5, 'create_wo': 6, 'offset': 7}
+UOPS = {'shutdown': 0, 'restore': 1, 'fail_at': 2, 'block': 3, 'adjust': 4, 'add_res': 5, 'create_wo': 6, 'offset': 7, 'rewire': 8}
 WHICH = {'receive': 0, 'finish': 1, 'shutdown': 2, 'restore': 3}
 LABELS = {'resource_update': 1, 'enter_queue': 2, 'start_work_order': 3, 'finish_work_order': 4,
           'received_part': 6, 'produced_part': 7, 'device_failure': 8, 'level': 9, 'supplied_new_part': 10}
@@ -282,6 +282,8 @@ def run_uop(W, o):
         W.objs[o[1]].adjust_part_count(o[2])
     elif k == 'offset':
         W.objs[o[1]].offset_next_cycle_time(o[2] / TICK)
+    elif k == 'rewire':
+        W.objs[o[1]].set_upstream([W.objs[u] for u in o[2:] if u])
     elif k == 'add_res':
         W.rm.add_resources('r%d' % o[1], o[2] / TICK)
     elif k == 'create_wo':
